@@ -287,7 +287,7 @@ def wl_refusals(ctx, idx, rng):
 
 def workloads(ctx):
     q = ctx.tier == "quick"
-    return [("snippet", 1536 if q else 43200, wl_snippet), ("refusals", 480 if q else 9600, wl_refusals)]
+    return [("snippet", 4608 if q else 43200, wl_snippet), ("refusals", 1440 if q else 9600, wl_refusals)]
 
 
 def setup(ctx):
